@@ -6,7 +6,7 @@ from hypothesis import strategies as st
 from geomdl import operations, helpers
 
 from vp import gen, build, ref, shape
-from vp.core import SubCheck
+from vp.core import SubCheck, Skip
 from vp.props.C04 import ins_desc, pick_insert, _do_insert
 
 RULE = ("Cases: generated clamped curves/surfaces/volumes; histories interleaving knot insertions (or a refinement) with "
@@ -15,6 +15,39 @@ RULE = ("Cases: generated clamped curves/surfaces/volumes; histories interleavin
         "homogeneous control points when everything inserted has been removed.")
 ASSUMPTIONS = ["only knots removable by construction are removed; the tolerance branch for non-removable knots is not exercised",
                "control points restored to 1e-8 * (1 + max |coordinate|)"]
+
+
+def removal_noise(p, kv, u, num):
+    """Rounding-noise bound (relative) of removing the knot u `num` times.  Each removed copy solves the insertion equations
+    backwards from both ends of the affected control points (The NURBS Book A5.8): the left chain divides by
+    alpha_i = (u - U_i) / (U_{i+p+1+t} - U_i) once per point, the right chain by 1 - alpha_j.  A knot very close to the start
+    (or end) of the supports it is removed from therefore amplifies float rounding by the PRODUCT of these quotients -
+    inherent to the problem, not to the code - and the comparison tolerance is max(usual tolerance, this bound)."""
+    idx = [i for i, k in enumerate(kv) if abs(k - u) <= 1e-7]
+    if not idx:
+        return 0.0
+    r, s = idx[-1], len(idx)
+    order = p + 1
+    first, last = r - p, r - s
+    total = 1.0
+    for t in range(num):
+        i, j = first, last
+        left = right = 1.0
+        while j - i > t:
+            if 0 <= i and i + order + t < len(kv) and kv[i + order + t] > kv[i]:
+                a = (u - kv[i]) / (kv[i + order + t] - kv[i])
+                if 0.0 < a < 1.0:
+                    left /= a
+            if 0 <= j - t and j + order < len(kv) and kv[j + order] > kv[j - t]:
+                b = (u - kv[j - t]) / (kv[j + order] - kv[j - t])
+                if 0.0 < b < 1.0:
+                    right /= (1.0 - b)
+            i += 1
+            j -= 1
+        total *= max(left, right, 1.0)
+        first -= 1
+        last += 1
+    return 64 * 2.3e-16 * total
 
 
 def _do_remove(obj, params, nums, form):
@@ -58,12 +91,12 @@ def _history_cases(draw, tier):
     return {"defn": d, "steps": steps}
 
 
-def _orig_points_close(ctx, obj, orig_pts, tag, what):
+def _orig_points_close(ctx, obj, orig_pts, tag, what, noise=0.0):
     now = build.stored_points(obj)
     ctx.check(len(now) == len(orig_pts), tag, "%s: %d control points, originally %d" % (what, len(now), len(orig_pts)))
     big = max(1.0, max(abs(c) for p in orig_pts for c in p))
     for i, (a, b) in enumerate(zip(now, orig_pts)):
-        ctx.check(all(abs(x - y) <= 1e-8 * big for x, y in zip(a, b)), tag,
+        ctx.check(all(abs(x - y) <= max(1e-8, noise) * big for x, y in zip(a, b)), tag,
                   "%s: control point %d is %r, originally %r" % (what, i, a, b))
 
 
@@ -77,6 +110,7 @@ def check_history(case, ctx):
     ledger = []          # [dir, u, removable copies]
     removed_any = full_restore = r2 = onknot = False
     nrem = 0
+    noise = 0.0          # accumulated conditioning bound of the removals done so far (see removal_noise)
     for st_ in case["steps"]:
         kvs, szs = build.kvs_of(obj), build.sizes_of(obj)
         if st_["op"] == "ins":
@@ -122,6 +156,10 @@ def check_history(case, ctx):
         for e, c in picks:
             params[e[0]], nums[e[0]] = e[1], c
             r2 = r2 or c >= 2
+            noise += removal_noise(degs[e[0]], kvs[e[0]], e[1], c)
+        if noise > 1e-6:
+            raise Skip("removal of a knot too close to the start of its supports is ill-conditioned")
+        ctx.label("conditioning-widened-tolerance", noise > 1e-9)
         _do_remove(obj, params, nums, st_["form"])
         nrem += 1
         removed_any = True
@@ -143,11 +181,12 @@ def check_history(case, ctx):
             total *= s_
         ctx.check(len(build.stored_points(obj)) == total, "net-count", "control net has %d points for sizes %r" % (len(build.stored_points(obj)), nszs))
         lat = shape.obj_lattice(obj, extras=[[e[1] for e in ledger if e[0] == k] for k in range(pdim)])
-        shape.same_shape(ctx, R, obj, lat, "shape-changed", "after removing %r x%r via %s (removal #%d)" % (params, nums, st_["form"], nrem))
+        shape.same_shape(ctx, R, obj, lat, "shape-changed", "after removing %r x%r via %s (removal #%d)" % (params, nums, st_["form"], nrem),
+                         rel=max(1e-9, noise))
         if all(e[2] == 0 for e in ledger):
             full_restore = True
             ctx.check(all(shape.kv_close(x, y) for x, y in zip(build.kvs_of(obj), orig["kv"])), "knot-vector-not-restored", "all inserted knots removed but knot vectors are %r, originally %r" % (build.kvs_of(obj), orig["kv"]))
-            _orig_points_close(ctx, obj, orig["pts"], "control-points-not-restored", "insert then remove everything")
+            _orig_points_close(ctx, obj, orig["pts"], "control-points-not-restored", "insert then remove everything", noise)
     ctx.nt(removed_any and r2, "removal-count>=2")
     ctx.nt(removed_any and onknot, "inserted-on-existing-knot")
     ctx.nt(removed_any and build.varied_weights(d), "rational-varied")
@@ -235,6 +274,10 @@ def check_helper(case, ctx):
     span1 = helpers.find_span_linear(p, kv1, len(cp1), u)
     s1 = helpers.find_multiplicity(u, kv1)
     keep = [list(map(list, q)) if rows else list(q) for q in cp1]
+    noise = removal_noise(p, kv1, u, rr)
+    if noise > 1e-6:
+        raise Skip("removal of a knot too close to the start of its supports is ill-conditioned")
+    ctx.label("conditioning-widened-tolerance", noise > 1e-8)
     cp2 = helpers.knot_removal(p, kv1, cp1, u, num=rr, s=s1, span=span1)
     kv2 = helpers.knot_removal_kv(kv1, span1, rr)
     ctx.nt(rr >= 2, "removal-count>=2")
@@ -255,14 +298,14 @@ def check_helper(case, ctx):
         for us in lat:
             a, sc = old.point(us)
             b, _ = new.point(us)
-            ctx.check(all(abs(x - y) <= F(1, 10 ** 8) * sc for x, y in zip(a, b)), "helper-shape-changed",
+            ctx.check(all(abs(x - y) <= F(max(1e-8, noise)) * sc for x, y in zip(a, b)), "helper-shape-changed",
                       "insert %r x%d then knot_removal x%d: point at %r moved from %r to %r" % (u, r, rr, float(us[0]), ref.fl(a), ref.fl(b)))
     if rr == r:
         big = max(1.0, max(abs(c) for q in pts for c in q))
         flat_new = [q[j] for q in cp2 for j in range(rows)] if rows else cp2
         flat_old = [q[j] for q in cp for j in range(rows)] if rows else cp
         for a, b in zip(flat_new, flat_old):
-            ctx.check(all(abs(x - y) <= 1e-8 * big for x, y in zip(a, b)), "helper-control-points-not-restored",
+            ctx.check(all(abs(x - y) <= max(1e-8, noise) * big for x, y in zip(a, b)), "helper-control-points-not-restored",
                       "insert %r x%d then remove x%d: control point %r, originally %r" % (u, r, rr, a, b))
 
 
